@@ -332,3 +332,71 @@ class _getitem_int_u:
     def _(o):
         n = count_of(o.self)
         return Or(o.index >= n, o.index < -n)
+
+
+# ---------------------------------------------------------------------------------------------- slices (C11, C12)
+
+@contract(H1K + ".__getitem__", props=["C11", "C12"], name=H1K + ".__getitem__[slice, any bin count]")
+class _getitem_slice_u:
+    """h[a:b] for ANY number of bins: the selected bins with their contents and errors; what is cut off goes to underflow /
+    overflow, so nothing is lost; the source is untouched and shares nothing with the selection"""
+    probe = "quantifier-free"
+
+    def lemmas_():
+        from pyvc import induct
+        return [induct.sum_split_lemma("int"), induct.sum_shift_lemma("int")]
+    lemmas = lemmas_()
+
+    def configs():
+        return [{"form": "a:b"}, {"form": ":b"}, {"form": "a:"}]
+
+    def inputs(b):
+        n = nbins(b)
+        lo = b.int("a") if b.cfg.form != ":b" else None
+        hi = b.int("b") if b.cfg.form != "a:" else None
+        lo_v, hi_v = (0 if lo is None else lo), (n if hi is None else hi)
+        b.assume(And(0 <= lo_v, lo_v < hi_v, hi_v <= n))        # requires: a non-empty selection inside the bins
+        return dict(self=hist1d_t(b, "h", n, "int64", stats=None), index=slice(lo, hi, None))
+
+    def invoke(I, fn, a, cfg):
+        if I is not None:
+            return I.call(fn, [a.self, a.index], {})
+        return fn(a.self, a.index)
+
+    def _bounds(o):
+        n = count_of(o.self)
+        return (0 if o.index.start is None else o.index.start), (n if o.index.stop is None else o.index.stop), n
+
+    def using(a, old, result):
+        from pyvc import induct
+        from pyvc.values import term_of, raw
+        lo, hi, n = _getitem_slice_u._bounds(old)
+        t = lambda x: term_of(raw(x), "int")
+        f0, f1 = Fq(old.self).term, Fq(result).term
+        import z3
+        return [(induct.sum_split_lemma("int"), (f0, z3.IntVal(0), t(lo), t(hi))),
+                (induct.sum_split_lemma("int"), (f0, z3.IntVal(0), t(hi), t(n))),
+                (induct.sum_shift_lemma("int"), (f0, f1, t(lo), t(hi) - t(lo)))]
+
+    @ensures("the_selected_bins_with_their_contents_and_errors")
+    def _(a, old, result):
+        lo, hi, n = _getitem_slice_u._bounds(old)
+        b0, b1 = attr(attr(old.self, "_binnings")[0], "_bins"), attr(attr(result, "_binnings")[0], "_bins")
+        f0, f1, e0, e1 = Fq(old.self), Fq(result), Eq(old.self), Eq(result)
+        return And(typename(result) == "Histogram1D", count_of(result) == hi - lo, shape_of(b1)[0] == hi - lo,
+                   forall(0, hi - lo, lambda j: And(f1[j] == f0[lo + j], e1[j] == e0[lo + j], b1[j, 0] == b0[lo + j, 0], b1[j, 1] == b0[lo + j, 1])),
+                   attr(result, "_dtype") == attr(old.self, "_dtype"))
+
+    @ensures("what_is_cut_off_goes_to_underflow_and_overflow_nothing_is_lost")
+    def _(a, old, result):
+        lo, hi, n = _getitem_slice_u._bounds(old)
+        f0 = Fq(old.self)
+        m0, m1 = elems(attr(old.self, "_missed")), elems(attr(result, "_missed"))
+        from pyvc.spec import sumr_t
+        return And(m1[0] == m0[0] + sumr_t(f0, 0, lo), m1[1] == m0[1] + sumr_t(f0, hi, n),
+                   total_t(Fq(result)) + m1[0] + m1[1] == total_t(f0) + m0[0] + m0[1])
+
+    @ensures("the_source_is_untouched")
+    def _(a, old, result):
+        return And(same(Fq(old.self), Fq(a.self)), same(Eq(old.self), Eq(a.self)), same(elems(attr(old.self, "_missed")), elems(attr(a.self, "_missed"))),
+                   same(attr(attr(old.self, "_binnings")[0], "_bins"), attr(attr(a.self, "_binnings")[0], "_bins")), result is not a.self)
